@@ -371,7 +371,8 @@ func sharedInRegion(c *core.Ctx, entry *ssa.Function, region []*ssa.Function) []
 				switch {
 				case sc != nil && sameFunc(sc, g):
 					args = ci.Common().Args
-				case ci.Common().IsInvoke() && g.Signature.Recv() != nil && ci.Common().Method.Name() == g.Name():
+				case ci.Common().IsInvoke() && g.Signature.Recv() != nil && ci.Common().Method.Name() == g.Name() &&
+					(an.InvokeConcrete(ci.Common()) == nil || sameFunc(an.InvokeConcrete(ci.Common()), g)):
 					args = append([]ssa.Value{ci.Common().Value}, ci.Common().Args...)
 				default:
 					continue
